@@ -473,11 +473,22 @@ func (g *Gen) mapUpdate(x *ssa.MapUpdate) {
 	if !g.assignAll {
 		alts := []string{app(">", pObj(m), "alloc@0")}
 		for _, r := range g.fnAssigns {
-			if r.Whole {
+			if r.Whole && r.Map {
 				alts = append(alts, sEq(pObj(m), r.Obj))
 			}
 		}
 		g.oblige("frame", "map", x.Pos(), sOr(alts...))
+	}
+	// ownership ghost: a heap-only object stored in a map becomes owned by that map; only fresh or
+	// already-owned objects may be inserted (so that other maps never lose their objects)
+	if et, ok := deref(mt.Elem()); ok && g.isHeapType(et) {
+		oc := g.mkptr(pObj(v), g.M.IxLit(0))
+		g.oblige("ownership", "", x.Pos(), sOr(sEq(pObj(v), "0"), app(">", pObj(v), "alloc@0"), sEq(g.loadCell(g.cur, oc, "GOwn"), pObj(m))))
+		g.storeCell(g.cur, oc, "GOwn", pObj(m))
+		if g.sortOf(mt.Key()) == "Int" {
+			// the key under which the object was inserted (gives distinctness of the values of distinct keys)
+			g.storeCell(g.cur, g.mkptr(pObj(v), g.M.IxLit(1)), "GOwn", k)
+		}
 	}
 	dom, val, card := g.mapDom(g.cur, ks), g.mapVal(g.cur, ks, vs), g.mapCard(g.cur)
 	was := app("select", app("select", dom, pObj(m)), k)
